@@ -368,4 +368,31 @@ def ref_consolidate(raw_blocks, yields):
     return True
 
 
-REFS = dict(ref_consolidate=ref_consolidate, ref_index_many=ref_index_many, ref_sort_order_by_key=ref_sort_order_by_key, ref_frame_equals=ref_frame_equals, ref_frame_assign_series=ref_frame_assign_series, ref_dtype_per_depth=ref_dtype_per_depth, ref_ih_view=ref_ih_view, ref_ih_coherent=ref_ih_coherent, ref_series_assign=ref_series_assign, ref_has_missing=ref_has_missing, ref_index_equals=ref_index_equals, ref_series_equals=ref_series_equals, ref_set_fold=ref_set_fold, labels_of_array=labels_of_array, ref_map_slice_args=ref_map_slice_args, ref_windows=ref_windows, observed_windows=observed_windows, windows_agree=windows_agree, ref_tb_equals=ref_tb_equals, ref_slices_from_targets=ref_slices_from_targets)
+def ref_sorted_axis(container, result, axis, ascending, key):
+    """sort_index / sort_columns: the (label, vector) pairs of the sorted axis are those of the input, ordered by the key of the label (stable; descending = exact
+    reverse of ascending); the other axis and the name are unchanged"""
+    import numpy as np
+    f, r = container, result
+    is_frame = hasattr(f, 'columns')
+    lab = lambda c, ax: [tuple(x) if isinstance(x, (list, tuple, np.ndarray)) else x for x in (c.index if ax == 0 else c.columns).values.tolist()]
+    vec = (lambda c, ax, i: tuple(np.asarray(c.iloc[i].values if ax == 0 else c.iloc[:, i].values).tolist())) if is_frame else (lambda c, ax, i: c.values.tolist()[i])
+    n = len(lab(f, axis))
+    idx = f.index if axis == 0 else f.columns
+    if key is None:
+        kv = lab(f, axis)
+    else:
+        k = key(idx)
+        kv = [tuple(x) for x in k.values.tolist()] if getattr(k, 'ndim', 1) == 2 or getattr(k, 'depth', 1) > 1 else list(np.asarray(getattr(k, 'values', k)).tolist())
+    order = sorted(range(n), key=lambda i: kv[i])
+    if not ascending:
+        order = order[::-1]
+    want = [(lab(f, axis)[i], vec(f, axis, i)) for i in order]
+    got = [(lab(r, axis)[i], vec(r, axis, i)) for i in range(n)]
+    if got != want or r.name != f.name:
+        return False
+    if is_frame and lab(r, 1 - axis) != lab(f, 1 - axis):
+        return False
+    return True
+
+
+REFS = dict(ref_sorted_axis=ref_sorted_axis, ref_consolidate=ref_consolidate, ref_index_many=ref_index_many, ref_sort_order_by_key=ref_sort_order_by_key, ref_frame_equals=ref_frame_equals, ref_frame_assign_series=ref_frame_assign_series, ref_dtype_per_depth=ref_dtype_per_depth, ref_ih_view=ref_ih_view, ref_ih_coherent=ref_ih_coherent, ref_series_assign=ref_series_assign, ref_has_missing=ref_has_missing, ref_index_equals=ref_index_equals, ref_series_equals=ref_series_equals, ref_set_fold=ref_set_fold, labels_of_array=labels_of_array, ref_map_slice_args=ref_map_slice_args, ref_windows=ref_windows, observed_windows=observed_windows, windows_agree=windows_agree, ref_tb_equals=ref_tb_equals, ref_slices_from_targets=ref_slices_from_targets)
